@@ -37,7 +37,28 @@ ANN_POOL = [("int", "int"), ("List[int]", "List[int]"), ("Optional[str]", "Optio
             ("Tuple[int, ...]", "Tuple[int, ...]"), ("Literal['a']", "Literal['a']"), ("Literal['a', 1]", "Literal['a', 1]"),
             ('"str"', "str"), ('"List[int]"', "List[int]"), ("'typing.Sequence[str]'", "typing.Sequence[str]"),
             ('Optional["Foo"]', "Optional[Foo]"), ('List["int"]', "List[int]"), ('Dict[str, "Foo.Bar"]', "Dict[str, Foo.Bar]"),
-            ('"Optional[\'Foo\']"', "Optional[Foo]"), ('"int | None"', "int | None"), ('typing.Literal["x"]', "typing.Literal['x']")]
+            ('"Optional[\'Foo\']"', "Optional[Foo]"), ('"int | None"', "int | None"), ('typing.Literal["x"]', "typing.Literal['x']"),
+            # a quoted piece nested INSIDE a subscript whose expression needs its parentheses when shown unquoted
+            ('Array["(n + 1) * m"]', "Array[(n + 1) * m]"), ('List["(Read | Write) & Mask"]', "List[(Read | Write) & Mask]"),
+            ('Tuple["(a or b) and c", int]', "Tuple[(a or b) and c, int]"), ('Dict[str, "-(a + b)"]', "Dict[str, -(a + b)]"),
+            ('Optional["(a, b)[0]"]', "Optional[(a, b)[0]]"), ('"List[(A | B) & C]"', "List[(A | B) & C]"),
+            ('Callable[["(a | b) & c"], "x ** (y ** z)"]', "Callable[[(a | b) & c], x ** (y ** z)]"),
+            # Literal[...]: the arguments are values, never forward references - however the name Literal got here
+            # ({L} = the spelling of Literal in the module, see LITERAL_CONTEXTS)
+            ("{L}['r', 'w']", "{L}['r', 'w']"), ("{L}['x-y']", "{L}['x-y']"), ("List[{L}['x-y', 'a.b']]", "List[{L}['x-y', 'a.b']]"),
+            ('Optional[{L}["left", "right"]]', "Optional[{L}['left', 'right']]"),
+            ('"Optional[{L}[\'left\', \'right\']]"', "Optional[{L}['left', 'right']]")]
+# (import line of the generated module, spelling of Literal, extra modules of the system): Literal from typing, from
+# typing_extensions, through an alias of typing, re-exported by a compat module of the documented system, by a module
+# outside the system (by name / as an attribute of the module), not imported at all
+LITERAL_CONTEXTS = [("from typing import Literal", "Literal", {}),
+                    ("from typing_extensions import Literal", "Literal", {}),
+                    ("import typing as t", "t.Literal", {}),
+                    ("from c14compat import Literal", "Literal", {"c14compat": "try:\n    from typing import Literal\nexcept ImportError:\n    from typing_extensions import Literal\n"}),
+                    ("from thirdparty.compat import Literal", "Literal", {}),
+                    ("from thirdparty import compat", "compat.Literal", {}),
+                    ("import c14compat as cp", "cp.Literal", {"c14compat": "from typing import Literal\n__all__ = ['Literal']\n"}),
+                    ("", "Literal", {})]
 DEF_POOL = ["None", "True", "-1", "1.5", "'s'", "\"it's\"", "b'x'", "()", "(1, 2)", "[1, 2]", "{'a': 1}", "x.y",
             "f(1, k=2)", "lambda a: a", "...", "a + b", "not a", "a if b else c", "x[1]", "-x", "[]", "{}", "1j", "x.y.z()",
             "'a' 'b'", "0x10", "a and b", "a < b", "f(*a, **k)", "x[1:2]", "(yield_)", "a * b + c", "f'{x}'"]
@@ -51,6 +72,16 @@ LAMBDA_POOL = ["lambda {n}: {n}", "lambda {n}=0: {n}", "lambda q, {n}: q", "lamb
                "f(lambda {n}: 0)", "{{'k': lambda {n}, q: q}}", "[lambda {n}: {n}, 1]", "lambda {n}: lambda {m}: {n}",
                "(lambda {n}: {n})(1)", "g(key=lambda {n}, {m}=1: {m})"]
 
+# ---- expressions behind OPEN known findings (findings.d/C14.json), drawn rarely so that they do not mask anything else
+LONG_LAMBDA = ("lambda aaaaaaaaaaaaaaaaaaaa, bbbbbbbbbbbbbbbbbbbbbbbbbbbbb, cccccccccccccccccccccccccc, dddddddddddddddddddddddd: "
+               "aaaaaaaaaaaaaaaaaaaa + bbbbbbbbbbbbbbbbbbbbbbbbbbbbb + cccccccccccccccccccccccccc")
+LONG_COMP = ("[xxxxxxxxxxxxxxxxxxxxxxxxx for xxxxxxxxxxxxxxxxxxxxxxxxx in yyyyyyyyyyyyyyyyyyyyyyyyyyyyyyyyyyyyyyyyy "
+             "if zzzzzzzzzzzzzzzzzzzzzzzzzzzzzzzzzzzzzzzz]")
+KF_DEFAULTS = ["1e999", "-1e999", LONG_LAMBDA, LONG_COMP, '"x\\u00a0y"', '"x\\ufffey"']
+# (written, shown, what is displayed while the finding is open)
+KF_ANNOTATIONS = [('"A | B" & C', "(A | B) & C", "A | B & C"), ('C & "A | B"', "C & (A | B)", "C & A | B"),
+                  ('-"a + b"', "-(a + b)", "-a + b")]
+
 SEEN_CONSTS: List[str] = []               # per worker process: constant defaults in the order pydoctor first met them
 CASES: List[Dict[str, Any]] = []          # set before forking the pool: workers receive index ranges only
 RICH = False
@@ -63,7 +94,7 @@ def cfg_text(maxp: int, anns: Tuple[str, ...] = ("none", "plain", "string")) -> 
 
 
 # --------------------------------------------------------------------------------- expressions of a case
-def exprs_for(rec: Dict[str, Any], rng: Optional[random.Random]) -> Dict[str, Any]:
+def exprs_for(rec: Dict[str, Any], rng: Optional[random.Random], lit: str = "Literal") -> Dict[str, Any]:
     """
     Concrete expressions of the layout: ann[i] = (written, shown) or None, default[i] = text or None, ret = (written, shown).
     Exhaustive tier: fixed by position.  Thorough (rng given): drawn from the pools.
@@ -83,9 +114,13 @@ def exprs_for(rec: Dict[str, Any], rng: Optional[random.Random]) -> Dict[str, An
                 ann[i] = rng.choice([x for x in ANN_POOL if '"' not in x[0] and not x[0].startswith("'")])
             elif a == "string":
                 ann[i] = rng.choice([x for x in ANN_POOL if x[0] != x[1]])
+                if rng.random() < 0.03:
+                    ann[i] = rng.choice(KF_ANNOTATIONS)[:2]
             if has_def:
                 u = rng.random()
-                if u < 0.3:
+                if u < 0.04:
+                    dflt[i] = rng.choice(KF_DEFAULTS)
+                elif u < 0.3:
                     # a name that collides: preferably an annotated parameter of this very function
                     annotated = [j for j, p in enumerate(rec["params"], 1) if p[2] != "none"] or list(range(1, len(rec["params"]) + 1))
                     dflt[i] = rng.choice(LAMBDA_POOL).format(n=f"p{rng.choice(annotated)}", m=f"p{rng.choice(annotated)}x")
@@ -93,6 +128,7 @@ def exprs_for(rec: Dict[str, Any], rng: Optional[random.Random]) -> Dict[str, An
                     dflt[i] = rng.choice(CONST_POOL)
                 else:
                     dflt[i] = rng.choice(DEF_POOL)
+    ann = {i: (w.replace("{L}", lit), sh.replace("{L}", lit)) for i, (w, sh) in ann.items()}
     r = rec["ret"]
     if r == "None":
         ret: Optional[Tuple[str, Optional[str]]] = ("None", None)
@@ -102,6 +138,8 @@ def exprs_for(rec: Dict[str, Any], rng: Optional[random.Random]) -> Dict[str, An
         ret = ('"str"', "str") if rng is None else rng.choice([x for x in ANN_POOL if x[0] != x[1]])
     else:
         ret = None
+    if ret and ret[1]:
+        ret = (ret[0].replace("{L}", lit), ret[1].replace("{L}", lit))
     return {"ann": ann, "default": dflt, "ret": ret}
 
 
@@ -204,6 +242,60 @@ def model_text(rec: Dict[str, Any], ex: Dict[str, Any]) -> str:
     return f"({', '.join(parts)}){r}"
 
 
+# ------------------------------------------------------------------------------------------ known findings
+def _diff_params(w: Dict[str, Any], col: int) -> List[Tuple[Any, Any]]:
+    exp, got = w["expected"]["params"], (w["observed"].get("read_back") or {}).get("params") or []
+    return [(e[col], g[col]) for e, g in zip(exp, got) if e[col] != g[col]]
+
+
+def kf_float_overflow(w: Dict[str, Any]) -> bool:
+    """every default that differs is an overflowing float literal (value inf) displayed as the NAME inf"""
+    if w.get("failed") != ["DefaultsWhereWritten"]:
+        return False
+    d = _diff_params(w, 2)
+    return bool(d) and all(e and g and "Constant(value=inf)" in e and e.replace("Constant(value=inf)", "Name(id='inf', ctx=Load())") == g
+                           for e, g in d)
+
+
+def kf_astor_wrapping(w: Dict[str, Any]) -> bool:
+    """the text does not parse because a long lambda / comprehension default was cut at astor's first line break"""
+    text = w["observed"].get("text") or ""
+    if w.get("failed") != ["ReadsBackAsPython"] or text == "(...)":
+        return False
+    cut = [p for p in ("(lambda aaaaaaaaaaaaaaaaaaaa, bbbbbbbbbbbbbbbbbbbbbbbbbbb...", "[xxxxxxxxxxxxxxxxxxxxxxxxx for xxxxxxxxxxxxxxxxxxxxxxxxx...") if p in text]
+    if not cut or not (LONG_LAMBDA in w["input"] or LONG_COMP in w["input"]):
+        return False
+    # with the cut values put back, the text reads back as expected
+    fixed = text.replace("(lambda aaaaaaaaaaaaaaaaaaaa, bbbbbbbbbbbbbbbbbbbbbbbbbbb...", "(" + LONG_LAMBDA + ")") \
+                .replace("[xxxxxxxxxxxxxxxxxxxxxxxxx for xxxxxxxxxxxxxxxxxxxxxxxxx...", LONG_COMP)
+    got = read_back(fixed)
+    if got is None:
+        return False
+    # other open findings may sit in the same signature: compare names, kinds and presence of defaults only
+    return [p[:2] + [p[2] is not None] for p in got["params"]] == [p[:2] + [p[2] is not None] for p in w["expected"]["params"]]
+
+
+def kf_signature_xml(w: Dict[str, Any]) -> bool:
+    """the whole signature is replaced by (...) and a string default contains a no-break space / U+FFFE"""
+    return (w.get("failed") == ["ReadsBackAsPython"] and (w["observed"].get("text") or "") == "(...)"
+            and any(x in w["input"] for x in ('"x\\u00a0y"', '"x\\ufffey"')))
+
+
+def kf_partial_string_operand(w: Dict[str, Any]) -> bool:
+    """every annotation that differs is a string OPERAND shown without the parentheses its expression needs"""
+    if not w.get("failed") or any(f not in ("SameAnnotations", "SameReturn") for f in w["failed"]):
+        return False
+    wrong = {dump(sh): dump(bad) for _, sh, bad in KF_ANNOTATIONS}
+    d = _diff_params(w, 3) if "SameAnnotations" in w["failed"] else []
+    if "SameReturn" in w["failed"]:
+        d.append((w["expected"]["ret"], (w["observed"].get("read_back") or {}).get("ret")))
+    return bool(d) and all(e in wrong and wrong[e] == g for e, g in d)
+
+
+MATCHERS = {"float-overflow-shown-as-name": kf_float_overflow, "astor-line-wrapping-truncates": kf_astor_wrapping,
+            "string-default-breaks-signature-xml": kf_signature_xml, "partial-string-operand-loses-parentheses": kf_partial_string_operand}
+
+
 # ----------------------------------------------------------------------------------- worker: build + judge
 def work(span: Tuple[int, int, int]) -> Dict[str, Any]:
     lo, hi, seed = span
@@ -212,12 +304,15 @@ def work(span: Tuple[int, int, int]) -> Dict[str, Any]:
     from pydoctor.templatewriter.pages import format_signature, format_overloads
 
     cases = CASES[lo:hi]
-    lines = ["from typing import overload, List, Optional, Dict, Callable, Tuple, Literal", "import typing"]
+    imp, lit, extra = LITERAL_CONTEXTS[(lo // max(1, hi - lo) + seed) % len(LITERAL_CONTEXTS)] if RICH else LITERAL_CONTEXTS[0]
+    lines = ["from typing import overload, List, Optional, Dict, Callable, Tuple", "import typing", imp]
+    H = len(lines)
+    how = {"header": "\n".join(lines), "extra_modules": extra}
     exs = []
     ctxs: List[str] = []      # what the process had displayed before each definition (order-dependent defects replay with it)
     for k, rec in enumerate(cases):
         rng = random.Random(f"{seed}:{lo + k}") if RICH else None
-        ex = exprs_for(rec, rng)
+        ex = exprs_for(rec, rng, lit)
         exs.append(ex)
         src = write_def(f"f{lo + k}", rec, ex)
         check_ast_view(rec, ex, src)
@@ -241,6 +336,8 @@ def work(span: Tuple[int, int, int]) -> Dict[str, Any]:
         system = model.System()
         system.msg = lambda section, msg, *a, **kw: msgs.append((section, msg))  # type: ignore[method-assign]
         builder = system.systemBuilder(system)
+        for xn, xs in extra.items():
+            builder.addModuleString(xs, modname=xn)
         builder.addModuleString("\n".join(src_lines) + "\n", modname=modname)
         try:
             builder.buildModules()
@@ -255,13 +352,13 @@ def work(span: Tuple[int, int, int]) -> Dict[str, Any]:
         """the Function object; when the batch build aborted, from a build of this definition alone"""
         if whole is not None:
             return whole.allobjects.get(f"{modname}.{name}"), None
-        alone, err = build(lines[:2] + own_lines)
+        alone, err = build(lines[:H] + own_lines)
         if alone is None:
             return None, err
         return alone.allobjects.get(f"{modname}.{name}"), None
 
     def aborted(rec: Dict[str, Any], origin: str, src: str, err: str) -> None:
-        out["violations"].append({"invariant": "SignatureIsDisplayed", "failed": ["SignatureIsDisplayed"], "origin": origin, "input": src,
+        out["violations"].append({"invariant": "SignatureIsDisplayed", "failed": ["SignatureIsDisplayed"], "origin": origin, "input": src, **how,
                                   "layout": {"params": rec["params"], "ret": rec["ret"]}, "expected": "a displayed signature",
                                   "observed": {"text": None, "exception": err},
                                   "key": f"abort:{origin}:{[p[0] for p in rec['params']]}:{[p[1] for p in rec['params']]}"})
@@ -282,7 +379,7 @@ def work(span: Tuple[int, int, int]) -> Dict[str, Any]:
             if got["ret"] != want["ret"]:
                 failed.append("SameReturn")
         if failed:
-            out["violations"].append({"invariant": failed[0], "failed": failed, "origin": origin, "input": src,
+            out["violations"].append({"invariant": failed[0], "failed": failed, "origin": origin, "input": src, **how,
                                       "layout": {"params": rec["params"], "ret": rec["ret"]},
                                       "expected": want, "observed": {"text": text, "read_back": got}, **(more or {}),
                                       "key": f"{origin}:{failed}:{[p[0] for p in rec['params']]}:{[p[1] for p in rec['params']]}:{rec['ret']}"})
@@ -293,7 +390,7 @@ def work(span: Tuple[int, int, int]) -> Dict[str, Any]:
             out["drift"].append({"origin": origin, "input": src, "model": mt, "real": text})
 
     for k, rec in enumerate(cases):
-        src = lines[2 + k]
+        src = lines[H + k]
         fn, err = lookup(f"f{lo + k}", [src])
         if err is not None:
             out["n"] += 1
@@ -326,7 +423,7 @@ def work(span: Tuple[int, int, int]) -> Dict[str, Any]:
             shown = page[j] if j < len(page) else "<missing>"
             if shown != f"def g{lo}_{gi}{text}:":
                 out["violations"].append({"invariant": "OverloadShowsOwnSignature", "failed": ["OverloadShowsOwnSignature"],
-                                          "origin": "overload-page", "input": src,
+                                          "origin": "overload-page", "input": src, **how,
                                           "layout": {"params": cases[k]["params"], "ret": cases[k]["ret"]},
                                           "expected": f"def g{lo}_{gi}{text}:", "observed": {"text": shown}, **grp_src,
                                           "key": f"overload-page:{[p[0] for p in cases[k]['params']]}"})
@@ -400,6 +497,8 @@ def enumerate_layouts(ctx: Ctx, runs: List[Tuple[int, Tuple[str, ...]]]) -> Tupl
 
 
 def run(ctx: Ctx) -> int:
+    for fid, fn in MATCHERS.items():
+        ctx.register_matcher(fid, fn)
     # quick: every layout of <= 4 parameters with annotations {absent, string} and of <= 3 parameters with
     # {absent, plain, string}; thorough: every layout of <= 4 parameters with all three
     runs = [(4, ("none", "string")), (3, ("none", "plain", "string"))] if ctx.quick else [(4, ("none", "plain", "string"))]
@@ -412,7 +511,7 @@ def run(ctx: Ctx) -> int:
         # a fifth of the layouts once more with pool expressions (lambda defaults with colliding parameter names,
         # equal-valued constants of different types in both orders within one module, nested string annotations ...)
         rich_cases = [c for i, c in enumerate(cases) if i % 5 == ctx.seed % 5]
-        sim_tot = run_cases(ctx, rich_cases, rich=True)
+        sim_tot = run_cases(ctx, rich_cases, rich=True, per=400)
         ctx.extra["layouts_with_pool_expressions"] = len(rich_cases)
     else:
         r2 = ctx.tlc("Signature", cfg_text(7), workers=1, check=True, simulate="num=6000", depth=12, seed=ctx.seed, timeout=1500)
@@ -487,6 +586,8 @@ def run(ctx: Ctx) -> int:
 
 
 def replay(ctx: Ctx, path: str) -> int:
+    for fid, fn in MATCHERS.items():
+        ctx.register_matcher(fid, fn)
     w = json.load(open(path))
     from pydoctor import model
     from pydoctor.stanutils import flatten_text
@@ -495,7 +596,9 @@ def replay(ctx: Ctx, path: str) -> int:
     system.msg = lambda *a, **k: None  # type: ignore[method-assign]
     b = system.systemBuilder(system)
     src = w["input"]
-    pre = "from typing import overload, List, Optional, Dict, Callable, Tuple, Literal\nimport typing\n"
+    pre = w.get("header", "from typing import overload, List, Optional, Dict, Callable, Tuple, Literal\nimport typing") + "\n"
+    for xn, xs in (w.get("extra_modules") or {}).items():
+        b.addModuleString(xs, modname=xn)
     is_ov = w["origin"].startswith("overload")
     name = src.split("def ", 1)[1].split("(", 1)[0]
     j = w.get("index", 0)
